@@ -374,3 +374,16 @@ package server
 //@     before call cachecontroller.CacheController.DetermineInvalidationTime args _, _, st : assert req.GetConsistency() != openfgav1.ConsistencyPreference_HIGHER_CONSISTENCY && st == req.GetStoreId()
 //@     before call (*modelgraph.AuthorizationModelGraphResolver).Resolve args _, _, st, m : assert st == req.GetStoreId() && m == req.GetAuthorizationModelId()
 //@     before call (*commands.CheckQueryV2).Execute args _, _, p : assert p != nil && p.StoreID == req.GetStoreId() && p.TupleKey == req.GetTupleKey() && p.ContextualTuples == req.GetContextualTuples() && p.Context == req.GetContext() && p.Consistency == req.GetConsistency()
+
+// ------------------------------------------------------------------ C19: no-panic sweep (thin, safety-only contracts)
+// every index and slice expression of these functions is in range for ALL inputs, with no precondition (generated by
+// bin/sweepgen, kept because every obligation discharges; callees without contract are treated as arbitrary)
+//@ func (*Server).ActionSearch(recv, a0, a1) (r0, r1)
+//@   property C19
+//@   option nosafety
+//@   option safety slice,index
+
+//@ func getAuthorizationModelIDFromHeader(a0) (r0)
+//@   property C19
+//@   option nosafety
+//@   option safety slice,index
